@@ -68,7 +68,7 @@ func init() {
 					}
 				}
 			}
-			for _, c := range []string{"not_over_not", "not_over_binary", "binary_over_not", "call_in_operand", "zero_arg_calls", "if_calls", "list_literals", "redundant_renderings", "typed_programs"} {
+			for _, c := range []string{"not_over_not", "not_over_binary", "binary_over_not", "call_in_operand", "zero_arg_calls", "if_calls", "list_literals", "redundant_renderings", "typed_programs", "wide_nested_calls"} {
 				if m.C(c) == 0 {
 					u = append(u, c+" = 0")
 				}
@@ -163,6 +163,38 @@ func c15Run(w *W, idx int) {
 	typed := false
 	nk := numChildKinds
 	switch {
+	case idx%64 == 5:
+		// wide calls nested in wide calls: a call or an if that starts while well over a hundred operands of enclosing
+		// calls are pending (no single operator has more than 127 operands)
+		na := []int{60, 100, 120, 126, 127}[r.Intn(5)]
+		nb := []int{2, 10, 27, 100, 127}[r.Intn(5)]
+		bv := func() *Node { return Var(fmt.Sprintf("b%d", r.Intn(3)), TBool) }
+		inner := []*Node{
+			Op("==", TBool, Op("mod", TInt, Var("i0", TInt), Lit(int64(2))), Lit(int64(0))),
+			If(bv(), bv(), Op("<", TBool, Var("i1", TInt), Lit(int64(1)))),
+			Op("not", TBool, bv()),
+			Op("between", TBool, Var("i0", TInt), Lit(int64(-1)), Lit(int64(2))),
+		}[r.Intn(4)]
+		mid := make([]*Node, nb)
+		for i := range mid {
+			mid[i] = bv()
+		}
+		mid[nb-1] = inner
+		if r.Intn(3) == 0 {
+			mid[r.Intn(nb)] = inner.Clone()
+		}
+		outer := make([]*Node, na)
+		for i := range outer {
+			outer[i] = bv()
+		}
+		pos := na - 1
+		if r.Intn(3) == 0 {
+			pos = r.Intn(na)
+		}
+		outer[pos] = Op([]string{"or", "and", "xor"}[r.Intn(3)], TBool, mid...)
+		tree = Op([]string{"and", "or"}[r.Intn(2)], TBool, outer...)
+		typed = true
+		w.Inc("wide_nested_calls")
 	case idx%4 == 3:
 		// typed random programs: results are meaningful
 		gg := stratumByName([]string{"mixed", "two-leaf", "skeleton", "failing"}[r.Intn(4)]).Make(r)
